@@ -40,24 +40,48 @@ def _read_all(f, cap=None):
     return total
 
 
+def _skip_unreadable(fn):
+    """a traversal that goes on after an entry it cannot read (an extraction tool logging the failure): the entries after it must
+    still be reachable, so one refused read may not leave anything behind that blocks the next"""
+    try:
+        fn()
+        return 0
+    except (MemoryError, RecursionError):
+        raise
+    except Exception:
+        return 1
+
+
 def drive_romfs(data):
     from pyctr.type.romfs import RomFSReader
     with RomFSReader(io.BytesIO(data)) as r:
-        n = 0
+        n = bad = 0
+        held = []
         for path, dirs, files in r.walk.walk('/'):
             for f in files:
                 n += 1
-                with r.openbin((path.rstrip('/') + '/' + f.name)) as fh:
-                    fh.read()
-        return 'ok:%d' % n
+
+                def one(p=(path.rstrip('/') + '/' + f.name)):
+                    with r.openbin(p) as fh:
+                        fh.read()
+                bad += _skip_unreadable(one)
+                if len(held) < 64:
+                    held.append(path.rstrip('/') + '/' + f.name)
+        # ... and once more with all handles open at the same time (they share what the reader shares between its files)
+        held = [r.openbin(p) for p in held]
+        for fh in held:
+            _skip_unreadable(fh.read)
+        return 'ok:%d:%d' % (n, bad)
 
 
 def drive_exefs(data):
     from pyctr.type.exefs import ExeFSReader
     with ExeFSReader(io.BytesIO(data)) as r:
         for name in list(r.entries):
-            with r.open(name, normalize=False) as fh:
-                fh.read()
+            def one(name=name):
+                with r.open(name, normalize=False) as fh:
+                    fh.read()
+            _skip_unreadable(one)
         return 'ok:%d' % len(r.entries)
 
 
